@@ -107,6 +107,20 @@ const OTHER_WALKS: &[(&str, &str)] = &[
     ("push-spread-scratch", "(function(){ var buf = []; var out = []; for (var i = 0; i < 5; i++) { buf.length = 0; buf.push({i: i}, [{j: i}]); out.push(...buf); churn(); } buf.length = 0; churn(); return out; })()"),
     ("reduce-accumulator-swap", "(function(){ return [0, 1, 2, 3, 4].reduce(function(acc, i){ churn(); return {prev: acc.cur, cur: {i: i, a: [i]}}; }, {cur: null}); })()"),
     ("promise-all-scratch", "(function(){ var seen = []; var buf = []; for (var i = 0; i < 3; i++) { buf.length = 0; buf.push(Promise.resolve({i: i})); Promise.all(buf).then(function(r){ seen.push(r); }); churn(); } return seen.length; })()"),
+    ("apply-arraylike-getters", "(function(){ function lit(i){ return null; } var al = {length: 4}; [0, 1, 2, 3].forEach(function(i){ Object.defineProperty(al, i, {get: function(){ churn(); return {i: i, a: [i]}; }}); }); function f(){ churn(); return Array.prototype.slice.call(arguments); } return [f.apply(null, al), Reflect.apply(f, null, al), Reflect.construct(function(){ this.args = Array.prototype.slice.call(arguments); }, al)]; })()"),
+    ("array-methods-on-arraylike-getters", "(function(){ var al = {length: 4}; [0, 1, 2, 3].forEach(function(i){ Object.defineProperty(al, i, {get: function(){ churn(); return {i: i, a: [i]}; }}); }); return [Array.from(al), Array.prototype.slice.call(al, 1), Array.prototype.map.call(al, function(x){ churn(); return [x]; }), Array.prototype.concat.call([], Array.from(al)), Array.prototype.filter.call(al, function(x){ return x.i % 2; })]; })()"),
+    ("define-properties-getters", "(function(){ var descs = {}; [0, 1, 2].forEach(function(i){ Object.defineProperty(descs, 'p' + i, {enumerable: true, get: function(){ churn(); return {value: {i: i, a: [i]}, enumerable: true}; }}); }); var o = Object.defineProperties({}, descs); var c = Object.create({base: 1}, descs); churn(); return [o, c, Object.getOwnPropertyDescriptors(o)]; })()"),
+    ("error-in-flight-through-native", "(function(){ var out = []; try { [1, 2, 3].map(function(x){ if (x === 2) { throw {code: x, data: [{deep: x}]}; } return x; }); } catch (e) { churn(); out.push(e); } try { try { throw {code: 7, a: [7]}; } finally { churn(); } } catch (e) { churn(); out.push(e); } try { JSON.stringify({toJSON: function(){ throw {code: 8, a: [{z: 8}]}; }}); } catch (e) { churn(); out.push(e); } try { [3, 1, 2].sort(function(){ throw {code: 9, b: [9]}; }); } catch (e) { churn(); out.push(e); } try { new Map([[1, 1]]).forEach(function(){ throw {code: 10, c: [10]}; }); } catch (e) { churn(); out.push(e); } return out; })()"),
+    ("error-objects-in-flight", "(function(){ var out = []; function thrower(i){ var e = new Error('m' + i); e.data = {i: i, a: [i]}; throw e; } for (var i = 0; i < 3; i++) { try { try { thrower(i); } finally { churn(); } } catch (e) { churn(); out.push([e.message, e.data, e instanceof Error]); } } try { null.x; } catch (e) { churn(); out.push(e.name); } return out; })()"),
+    ("regexp-callback-groups", "(function(){ var seen = []; 'a1-b2-c3'.replace(/(?<l>[a-c])(?<d>\\d)/g, function(){ var args = Array.prototype.slice.call(arguments); churn(); seen.push(args[args.length - 1], args.slice(0, 3)); return 'x'; }); var m = /(?<y>\\d{4})-(?<m>\\d\\d)/.exec('on 2024-05-06'); churn(); return [seen, m && m.groups, m && m.index, 'k=v;k2=v2'.split(';').map(function(p){ churn(); return p.split('='); })]; })()"),
+    ("groupby-detach", "(function(){ var a = build(6); var r1 = (typeof Object.groupBy === 'function') ? Object.groupBy(a, function(x, k){ if (k === 2) { a.length = 0; churn(); } return x.i % 2 ? 'odd' : 'even'; }) : null; var b = build(6); var r2 = (typeof Map.groupBy === 'function') ? [...Map.groupBy(b, function(x, k){ if (k === 1) { b.length = 0; churn(); } return x.i % 3; })] : null; return [r1, r2]; })()"),
+    ("yield-star-custom-iterator-return", "(function(){ var closed = []; var it = { [Symbol.iterator]: function(){ var i = 0; return { next: function(){ churn(); var t = i++; return {value: {i: t, a: [t]}, done: false}; }, return: function(v){ churn(); closed.push({closed: i}); return {value: {ret: 1}, done: true}; } }; } }; function* g(){ yield* it; } var out = []; for (var x of g()) { out.push(x); if (out.length === 3) break; } var [p, q] = it; churn(); return [out, closed, p, q]; })()"),
+    ("setter-stores-fresh", "(function(){ var store = []; var o = { set v(x){ churn(); store.push(x); }, get v(){ churn(); return store[store.length - 1]; } }; o.v = {i: 1, a: [1]}; o.v = [{i: 2}]; o['v'] = {i: 3}; Object.assign(o, {v: {i: 4, a: [4]}}); Reflect.set(o, 'v', {i: 5}); churn(); return [store, o.v]; })()"),
+    ("closures-per-iteration", "(function(){ var fns = []; for (let o = {i: 0, a: [0]}; o.i < 4; o = {i: o.i + 1, a: [o.i + 1]}) { fns.push(function(){ return o; }); churn(); } var gs = []; for (const x of [0, 1, 2].map(function(i){ return {i: i}; })) { gs.push(() => x); } churn(); return [fns.map(function(f){ return f(); }), gs.map(function(f){ return f(); })]; })()"),
+    ("default-param-closures", "(function(){ function f(a = {i: 1, a: [1]}, b = function(){ return a; }, c = [a, b()]){ churn(); var a2 = a; a = {i: 2}; churn(); return [a2, b(), c, a]; } return [f(), f({i: 9})]; })()"),
+    ("arguments-object-fresh", "(function(){ function f(){ churn(); var r = [arguments[1], arguments.length]; arguments[0] = {i: 99}; churn(); r.push(arguments[0], Array.prototype.slice.call(arguments, 2)); return r; } return [f({i: 1}, {i: 2, a: [2]}, [{i: 3}], {i: 4}), f.call({t: 1}, [1], [2])]; })()"),
+    ("class-computed-and-static", "(function(){ function key(i){ churn(); return 'k' + i; } class K { static [key(1)] = {i: 1, a: [1]}; [key(2)] = [{i: 2}]; static { churn(); K.late = {i: 3}; } [key(3)](){ return {i: 4}; } static get [key(4)](){ churn(); return {i: 5}; } } churn(); var o = new K(); return [K.k1, o.k2, K.late, o.k3(), K.k4, Object.keys(o)]; })()"),
+    ("object-iteration-fresh-values", "(function(){ var o = {}; for (var i = 0; i < 5; i++) { o['k' + i] = {i: i, a: [i]}; } var out = []; for (var k in o) { var v = o[k]; delete o[k]; churn(); out.push([k, v]); } var e = Object.entries({a: {i: 1}, b: [{i: 2}]}); churn(); var v2 = Object.values({a: {i: 3}, b: [{i: 4}]}); churn(); return [out, e, v2]; })()"),
     ("map-forEach-clear", "(function(){ var m = new Map(); for (var i = 0; i < 6; i++) m.set(mk(i), mk(i + 10)); var out = []; var n = 0; m.forEach(function(v, k){ if (++n === 2) { m.clear(); churn(); } out.push([k, v]); }); return out; })()"),
     ("map-forof-delete", "(function(){ var m = new Map(); var keys = []; for (var i = 0; i < 6; i++) { var k = mk(i); keys.push(k); m.set(k, mk(i + 10)); } var out = []; for (var e of m) { out.push(e); m.delete(keys[out.length]); churn(); } keys.length = 0; churn(); return out; })()"),
     ("set-forEach-clear", "(function(){ var s = new Set(); for (var i = 0; i < 6; i++) s.add(mk(i)); var out = []; s.forEach(function(v){ if (out.length === 1) { s.clear(); churn(); } out.push(v); }); return out; })()"),
@@ -215,7 +229,7 @@ pub fn items() -> Vec<Item> {
         }
     }
     for (n, expr) in OTHER_WALKS {
-        push(format!("transit.walk.{}", n), format!("{} var r = {}; churn(); return __show(r);", HELPERS, expr));
+        push(format!("transit.walk.{}", n), format!("{} {} var r = {}; churn(); return __show(r);", HELPERS, BUILD, expr));
     }
     v
 }
@@ -233,5 +247,8 @@ pub const ASYNC_TRANSIT: &[(&str, &str)] = &[
     ("thenables", "async function main(){ function churn(){ var j = []; for (var q = 0; q < 25; q++) j.push({q: q}); return j.length; } const t = { then: function(ok){ churn(); ok({from: 'thenable', a: [1]}); } }; const a = await t; const b = await Promise.resolve({ then: function(ok){ churn(); ok({nested: {then: function(ok2){ churn(); ok2({deep: 1}); }}}); } }); churn(); return [a, b]; }"),
     ("async-generators", "async function main(){ function churn(){ var j = []; for (var q = 0; q < 25; q++) j.push({q: q}); return j.length; } async function* ag(){ for (let i = 0; i < 4; i++) { churn(); yield {i: i, a: [i]}; } } const out = []; for await (const x of ag()) { churn(); out.push(x); } return out; }"),
     ("reaction-chain-values", "async function main(){ function churn(){ var j = []; for (var q = 0; q < 25; q++) j.push({q: q}); return j.length; } let p = Promise.resolve({n: 0, trail: []}); for (let i = 1; i <= 6; i++) { p = p.then(function(v){ churn(); return {n: v.n + i, trail: v.trail.concat([{i: i}])}; }); } const r = await p; churn(); return r; }"),
+    ("combinators-over-generators", "async function main(){ function churn(){ var j = []; for (var q = 0; q < 25; q++) j.push({q: q}); return j.length; } function* ps(n){ for (let i = 0; i < n; i++) { churn(); yield Promise.resolve({i: i, a: [i]}); } } function* mixed(){ churn(); yield {plain: 1}; churn(); yield Promise.resolve({i: 2}); churn(); yield new Promise(function(r){ Promise.resolve().then(function(){ churn(); r({late: 3}); }); }); } const a = await Promise.all(ps(4)); const b = await Promise.allSettled(ps(3)); const c = await Promise.race(ps(2)); const d = await Promise.all(mixed()); churn(); return [a, b.map(function(x){ return [x.status, x.value]; }), c, d]; }"),
+    ("then-returns-thenable-chain", "async function main(){ function churn(){ var j = []; for (var q = 0; q < 25; q++) j.push({q: q}); return j.length; } const r = await Promise.resolve({n: 1}).then(function(v){ churn(); return { then: function(ok){ churn(); ok({n: v.n + 1, trail: [v]}); } }; }).then(function(v){ churn(); return Promise.resolve({n: v.n + 1, trail: v.trail.concat([{n: v.n}])}); }).finally(function(){ churn(); return {ignored: true}; }); churn(); return r; }"),
+    ("rejections-in-flight", "async function main(){ function churn(){ var j = []; for (var q = 0; q < 25; q++) j.push({q: q}); return j.length; } const out = []; try { await Promise.reject({code: 1, a: [1]}); } catch (e) { churn(); out.push(e); } try { await Promise.all([Promise.resolve(1), Promise.reject({code: 2, a: [{z: 2}]})]); } catch (e) { churn(); out.push(e); } const p = Promise.reject({code: 3}); churn(); p.catch(function(e){ churn(); out.push(e); }); await null; await null; try { await (async function(){ churn(); throw {code: 4, a: [4]}; })(); } catch (e) { churn(); out.push(e); } return out; }"),
     ("orders-and-fanout", "async function main(){ function churn(){ var j = []; for (var q = 0; q < 25; q++) j.push({q: q}); return j.length; } const p = order({k: 3}); const log = []; const a = p.then(function(v){ churn(); log.push('a' + v); return {v: v}; }); const b = p.then(function(v){ churn(); log.push('b' + v); return {w: v}; }); const c = p.then(function(v){ log.push('c' + v); return [v]; }); const rs = await Promise.all([a, b, c]); return [log, rs]; }"),
 ];
